@@ -232,6 +232,11 @@ def gen_case(rng, tier):
                         others.append(o_)
                         break
             if spec["fn"] in BURST_OK and others:
+                # inside a burst the matcher's set order is scheduler-owned (the interleaving must not depend on the
+                # harness's hash seed); a *matching* legitimately depends on that order, so bursts ask for values only
+                for b_ in others + [spec]:
+                    if b_["fn"] == "bottleneck":
+                        b_["matching"] = False
                 op["burst"] = others
                 op["p_switch"] = rng.choice((2, 4, 8))
         if op["env"] == "warn-filter":
@@ -351,6 +356,8 @@ def run_case(case, sched):
     stats = {"ok": 0, "raised": 0, "skipped": 0, "alt_rep_compared": 0, "reference_forks": 0, "reference_cache_hits": 0}
     stray = []
     burst_stats = {}
+    from sim import simset as _simset
+    _simset.uninstall()
     try:
         from sim.sched import interleave
         for opi, op in interleave(sched, case["ops"], "client", case["config"].get("interleave", "as-listed")):
@@ -412,6 +419,8 @@ def run_case(case, sched):
                 burst = [spec] + list(op["burst"])
                 if len(burst) > 4 or any(not isinstance(b_, dict) or b_.get("fn") not in BURST_OK for b_ in burst):
                     raise InvalidCase("burst")
+                if any(b_["fn"] == "bottleneck" and b_.get("matching") for b_ in burst):
+                    raise InvalidCase("bursts compare values, not order-dependent matchings")
                 from sim import callers
                 built = []
                 for b_ in burst:
@@ -423,8 +432,13 @@ def run_case(case, sched):
                 rng0 = np.random.get_state()[1].tobytes()
                 import contextlib
                 import io
-                with contextlib.redirect_stdout(io.StringIO()):
-                    outs = callers.run_concurrent(sched, [b_[1] for b_ in built], int(op.get("p_switch", 4)), burst_stats)
+                from sim import simset
+                try:
+                    with contextlib.redirect_stdout(io.StringIO()), simset.order_scope(sched, "uniform"):
+                        outs = callers.run_concurrent(sched, [b_[1] for b_ in built], int(op.get("p_switch", 4)), burst_stats)
+                finally:
+                    # outside bursts C19 runs the matcher on real sets, exactly like the pristine reference process
+                    simset.uninstall()
                 if np.random.get_state()[1].tobytes() != rng0:
                     raise Violation("global-rng-untouched", site + "(concurrent)", "consumed",
                                     "concurrent non-randomised calls changed the global NumPy RNG state", opi)
